@@ -134,6 +134,9 @@ public:
   inline sandbox_callback& operator=(sandbox_callback&& other)
   {
     if (this != &other) {
+      // Unregister the callback currently owned by this object before
+      // overwriting it
+      unregister();
       move_obj(std::forward<sandbox_callback>(other));
     }
     return *this;
